@@ -207,8 +207,8 @@ func (p Prog) coq() string {
 
 var (
 	niPool   = []string{"", "DEFAULT", "VRF-A", "VRF-B"}
-	v4Pool   = []string{"", "1.0.0.0/8", "10.1.0.0/16", "192.0.2.1/32"}
-	v6Pool   = []string{"", "2001:db8::/32", "2001:db8::1/128", "::/0"}
+	v4Pool   = []string{"", "1.0.0.0/8", "10.1.0.0/16", "192.0.2.1/32", "192.0.2.77/24", "10.1.2.3/8", "203.0.113.1"}
+	v6Pool   = []string{"", "2001:db8::/32", "2001:db8::1/128", "::/0", "2001:DB8::/32", "2001:db8:0:0::/32", "2001:db8::7/64"}
 	ipPool   = []string{"", "192.0.2.1", "198.51.100.7", "2001:db8::2"}
 	ifPool   = []string{"", "eth0", "Ethernet1/1"}
 	macPool  = []string{"", "00:00:5e:00:53:01", "02:00:00:00:00:01"}
